@@ -2,7 +2,7 @@
 
 use super::Mesh;
 use crate::{Point3, Result};
-use std::collections::{HashMap, HashSet};
+use std::collections::HashMap;
 
 pub struct MeshEdges<'a> {
     /// The original mesh associated with the edge structure
@@ -135,27 +135,52 @@ pub fn unique_edges(all_edges: &[[u32; 2]]) -> Vec<([u32; 2], usize)> {
     unique_count
 }
 
-fn boundary_loops(boundary_map: HashMap<u32, u32>) -> Vec<Vec<u32>> {
+/// Chains the boundary edges (given with the direction in which their face traverses them) into
+/// closed loops. Every boundary edge is used exactly once. The walk prefers to leave a vertex along
+/// an unused edge in its stored direction, and otherwise takes any unused edge at the vertex, so
+/// that meshes with faces touching at a single vertex or with inconsistent winding still produce
+/// closed loops. The number of steps is bounded by the number of boundary edges.
+fn boundary_loops(boundary_edges: &[[u32; 2]]) -> Vec<Vec<u32>> {
+    let mut incident: HashMap<u32, Vec<usize>> = HashMap::new();
+    for (i, edge) in boundary_edges.iter().enumerate() {
+        incident.entry(edge[0]).or_default().push(i);
+        incident.entry(edge[1]).or_default().push(i);
+    }
+
+    let mut used = vec![false; boundary_edges.len()];
     let mut all_loops = Vec::new();
-    let mut working = Vec::new();
-    let mut queue: HashSet<u32> = boundary_map.keys().copied().collect();
 
-    while !queue.is_empty() {
-        if let Some(last_id) = working.last() {
-            let next_id = boundary_map[last_id];
-            queue.remove(&next_id);
-
-            if *working.first().unwrap() == next_id {
-                working.reverse();
-                all_loops.push(working);
-                working = Vec::new();
-            } else {
-                working.push(next_id);
-            }
-        } else {
-            let start_id = *queue.iter().next().unwrap();
-            working.push(start_id);
+    for start in 0..boundary_edges.len() {
+        if used[start] {
+            continue;
         }
+        used[start] = true;
+        let first = boundary_edges[start][0];
+        let mut working = vec![first];
+        let mut current = boundary_edges[start][1];
+
+        while current != first {
+            working.push(current);
+            let next = incident[&current]
+                .iter()
+                .copied()
+                .filter(|&i| !used[i])
+                .min_by_key(|&i| (boundary_edges[i][0] != current, i));
+
+            if let Some(i) = next {
+                used[i] = true;
+                current = if boundary_edges[i][0] == current {
+                    boundary_edges[i][1]
+                } else {
+                    boundary_edges[i][0]
+                };
+            } else {
+                break;
+            }
+        }
+
+        working.reverse();
+        all_loops.push(working);
     }
 
     all_loops
@@ -185,7 +210,7 @@ fn identify_edges(faces: &[[u32; 3]]) -> Result<(Vec<[u32; 2]>, Vec<[u32; 3]>, V
         .collect();
 
     // Let's remap the face edges to the unique edges and build the boundary map at the same time
-    let mut boundary_map = HashMap::new();
+    let mut boundary_edges = Vec::new();
     let mut face_edges = Vec::new();
     for face_chunk in direct_edges.chunks(3) {
         let i0 = to_unique_index[&edge_key(&face_chunk[0])];
@@ -194,17 +219,17 @@ fn identify_edges(faces: &[[u32; 3]]) -> Result<(Vec<[u32; 2]>, Vec<[u32; 3]>, V
         face_edges.push([i0 as u32, i1 as u32, i2 as u32]);
 
         if unique_edge_count[i0].1 == 1 {
-            boundary_map.insert(face_chunk[0][0], face_chunk[0][1]);
+            boundary_edges.push(face_chunk[0]);
         }
         if unique_edge_count[i1].1 == 1 {
-            boundary_map.insert(face_chunk[1][0], face_chunk[1][1]);
+            boundary_edges.push(face_chunk[1]);
         }
         if unique_edge_count[i2].1 == 1 {
-            boundary_map.insert(face_chunk[2][0], face_chunk[2][1]);
+            boundary_edges.push(face_chunk[2]);
         }
     }
 
-    let loops = boundary_loops(boundary_map);
+    let loops = boundary_loops(&boundary_edges);
     let edges = unique_edge_count.iter().map(|(edge, _)| *edge).collect();
 
     Ok((edges, face_edges, loops))
